@@ -1,13 +1,81 @@
-(** Property C07 — writing a graph and reading it back.  (statements are added below as they are proved) *)
+(** Property C07 — writing a graph and reading it back is the identity.
+    Only statements, each closed by [exact]; proofs live in Write/WriteProofs.v (writer model alone,
+    unbounded) and Write/WriteRound.v (writer model composed with the reader model Reader/ReaderImpl.v;
+    bounded / refutations).  The FULL statement
+        forall g tr, wf_C07 g = true -> ring_contract g (dfs_tree g) tr = true -> roundtrip_code g tr = 0
+    is NOT provable for the current code: [C07_refuted] below.  What is proved instead:
+      - unbounded: the writer half for path graphs of any length ([C07_write_path]) and for every chain-shaped
+        DFS transcript ([C07_write_chain_transcript]); the DFS on a path graph ([C07_dfs_path]);
+      - bounded: [C07_small], the complete round trip outside the three defect classes for every graph of a
+        stated finite family and every iteration order of the ring-edge set (vm_compute);
+      - refuted: one witness per defect class.
+    Not proved: the round trip for arbitrary trees/rings (C07_partial over all graphs) and that the Gallina DFS
+    spans every connected graph (checked per case by [ring_contract]/[wf_C07] at run time instead). *)
 From Coq Require Import String.
 From Coq Require Import List Ascii ZArith Bool.
-From CGV Require Import Base.PyBase Base.PyVal Base.NxGraph Write.WriteImpl Write.WriteDefs Write.WriteCheck.
+From CGV Require Import Base.PyBase Base.PyVal Base.NxGraph Write.WriteImpl Write.WriteDefs Write.WriteCheck
+     Write.WriteProofs Write.WriteRound.
 Import ListNotations.
 Open Scope Z_scope.
 
-Example C07_model_runs :
-  write_cgsmiles_graph [{| nk := 0; na := [(S "fragname", VStr (S "A"))]; nadj := [(1, [(S "order", VInt 2)])] |};
-                        {| nk := 1; na := [(S "fragname", VStr (S "B"))]; nadj := [(0, [(S "order", VInt 2)])] |}] []
-  = Ok (S "{[#A]=[#B]}").
-Proof. vm_compute. reflexivity. Qed.
-Print Assumptions C07_model_runs.
+(** the serialisation loop on any DFS transcript that is a chain without ring edges, any length, any node
+    and edge formatter *)
+Theorem C07_write_chain_transcript : forall fmt sym rsym k0 rest n,
+  NoDup (k0 :: rest) -> (length (k0 :: rest) <= n)%nat ->
+  let env := mk_env fmt sym rsym (chain_edges (k0 :: rest)) [] in
+  run_writer n env k0
+  = (t <- chain_text env None (k0 :: rest) ;; Ok {| r_text := t; r_visit := k0 :: rest; r_mtrace := [] |}).
+Proof. exact write_chain_transcript. Qed.
+
+(** networkx' dfs_successors (the Gallina DFS in adjacency order) on a path graph: the chain *)
+Theorem C07_dfs_path : forall k0 a0 rest, NoDup (k0 :: rest_keys rest) ->
+  dfs_edges (path_graph k0 a0 rest) k0 = Ok (chain_edges (k0 :: rest_keys rest))
+  /\ dfs_visited (path_graph k0 a0 rest) k0 = Ok (k0 :: rest_keys rest).
+Proof. exact dfs_path. Qed.
+
+(** an unbranched path with arbitrary names and orders 0..4, of ANY length, whose smallest key is its first
+    node, is written "[#n0]s1[#n1]...sm[#nm]" and its nodes are numbered along the path *)
+Theorem C07_write_path : forall k0 nm0 (l : list (Z * Z * pystr)),
+  NoDup (k0 :: rest_keys (mk_rest l)) -> (forall x, In x (rest_keys (mk_rest l)) -> k0 <= x) ->
+  Forall (fun x => 0 <= fst (fst x) <= 4) l ->
+  write_graph_full false (fun _ => true) (path_graph k0 (name_attrs nm0) (mk_rest l)) []
+  = Ok {| r_text := path_text [] nm0 l; r_visit := k0 :: rest_keys (mk_rest l); r_mtrace := [] |}.
+Proof. exact write_path. Qed.
+Example C07_write_path_nonvacuous :
+  write_cgsmiles_graph (path_graph 2 (name_attrs (S "A")) (mk_rest [(2, 5, S "B"); (1, 3, S "C"); (0, 9, S "D")])) []
+  = Ok (S "{[#A]=[#B][#C].[#D]}").
+Proof. exact write_path_example. Qed.
+
+(** refutations: one witness per defect class (writer model + reader model, vm_compute) *)
+Theorem C07_refuted : exists g tr, wf_C07 g = true /\ ring_contract g (dfs_tree g) tr = true /\ roundtrip_code g tr <> 0%nat.
+Proof. exact WriteRound.C07_refuted. Qed.
+Theorem C07_refuted_branch_edge_order :
+  refutes w_branch [] 1 2 /\ write_cgsmiles_graph w_branch [] = Ok (S "{[#A](=[#C])[#B]}").
+Proof. exact WriteRound.C07_refuted_branch_edge_order. Qed.
+Theorem C07_refuted_ring_edge_order :
+  refutes w_ring [(0, 2)] 2 3 /\ write_cgsmiles_graph w_ring [(0, 2)] = Ok (S "{[#A]1[#B][#C]1}").
+Proof. exact WriteRound.C07_refuted_ring_edge_order. Qed.
+Theorem C07_refuted_pct_marker :
+  refutes w_pct w_pct_tr 3 2 /\
+  write_cgsmiles_graph w_pct w_pct_tr = Ok (S "{[#A]123[#A]4567[#A]89[#A]%1027[#A]196([#A]538)[#A]%104}").
+Proof. exact WriteRound.C07_refuted_pct_marker. Qed.
+
+(** BOUNDED: the complete round trip (writer model, then reader model, isomorphism under the numbering
+    "order of writing") outside the three classes, for every graph of [small_all] (all labelled graphs on
+    <= 3 nodes with orders 0..4 and three insertion orders, on 4 nodes with orders 0..2 and two insertion
+    orders, on 5 nodes with single bonds) and EVERY iteration order of the ring-edge set *)
+Theorem C07_small : forall g, In g small_all -> wf_C07 g = true ->
+  forall tr, In tr (perms (nontree_edges g (dfs_tree g))) -> class_C07 g tr = 0%nat -> roundtrip_code g tr = 0%nat.
+Proof. exact WriteRound.C07_small. Qed.
+Example C07_small_nonvacuous :
+  length (filter (fun g => wf_C07 g && Nat.eqb (class_C07 g (nontree_edges g (dfs_tree g))) 0) small_all) = 2407%nat.
+Proof. exact WriteRound.C07_small_nonvacuous. Qed.
+
+Print Assumptions C07_write_chain_transcript.
+Print Assumptions C07_dfs_path.
+Print Assumptions C07_write_path.
+Print Assumptions C07_refuted.
+Print Assumptions C07_refuted_branch_edge_order.
+Print Assumptions C07_refuted_ring_edge_order.
+Print Assumptions C07_refuted_pct_marker.
+Print Assumptions C07_small.
